@@ -266,6 +266,69 @@ func VerifC44UDP() {
 	c44Forwarded(e, buf, out, got, in[l.dstOff:l.dstOff+l.dstLen], port)
 }
 
+// VerifC44UDPSVC: a SCION/UDP datagram to a service address is forwarded only to the address
+// registered for exactly (destination ISD-AS, service) and only if the host of that address is the
+// outer IP destination.
+func VerifC44UDPSVC() {
+	e := c44DrawEnv()
+	seg := c44Seg()
+	sk, pt := verif.Param("src"), verif.Param("path")
+	nsvc := verif.Param("svcs")
+	_, sl := c44HostNibble(sk)
+	n := c44CmnLen + 16 + 4 + sl + c44PathLen(pt, seg) + 8 + 4
+	buf := verif.NondetBytes("pkt", n)
+	l := c44SCIONHdr(buf, c44HostSVC, sk, pt, seg, c44L4UDP)
+	buf[l.l4Off+4], buf[l.l4Off+5] = 0, 12
+	in := append([]byte(nil), buf...)
+
+	type reg struct {
+		ia   uint64
+		svc  uint16
+		ap   netip.AddrPort
+		host []byte
+	}
+	regs := make([]reg, nsvc)
+	svcMap := map[addr.Addr]netip.AddrPort{}
+	for i := range regs {
+		r := &regs[i]
+		r.ia, r.svc = verif.NondetU64("svc.ia"), verif.NondetU16("svc.id")
+		for k := 0; k < i; k++ {
+			verif.Assume(regs[k].ia != r.ia || regs[k].svc != r.svc)
+		}
+		var a netip.Addr
+		a, r.host = c44Addr("svc.host", verif.Param("sfam"))
+		r.ap = netip.AddrPortFrom(a, verif.NondetU16("svc.port"))
+		svcMap[addr.Addr{IA: addr.IA(r.ia), Host: addr.HostSVC(addr.SVC(r.svc))}] = r.ap
+	}
+	srv := c44Server(e.isDisp, svcMap)
+
+	out, got, err := srv.processMsgNextHop(buf, e.underlay, e.prevHop)
+
+	verif.Observe("udpsvc", err == nil, got.IsValid(), got.Port(), out)
+	verif.Assert("no-unrecoverable-error", err == nil)
+	if !got.IsValid() {
+		verif.Cover("svc-dropped")
+		verif.Assert("dropped-means-no-buffer", out == nil)
+		return
+	}
+	verif.Cover("svc-forwarded")
+	var dstIA uint64
+	for i := 0; i < 8; i++ {
+		dstIA = dstIA<<8 | uint64(in[12+i])
+	}
+	dstSVC := uint16(in[l.dstOff])<<8 | uint16(in[l.dstOff+1])
+	verif.Assert("forward-only-with-dispatcher-function", e.isDisp)
+	verif.Assert("forwarded-bytes-unchanged", c44Alias(out, buf) && c44EqBytes(buf, in))
+	registered, safe := false, false
+	for _, r := range regs {
+		hit := r.ia == dstIA && r.svc == dstSVC && got == r.ap
+		registered = registered || hit
+		safe = safe || (hit && c44SameHost(r.host, e.underlayRaw))
+	}
+	verif.Assert("svc-forward-target-is-the-registered-address-of-destination-ia-and-service", registered)
+	verif.Assert("forward-only-if-host-equals-outer-destination", safe)
+}
+
 // VerifC44UDPVacuity must fail: UDP datagrams are forwarded.
 func VerifC44UDPVacuity() {
 	e := c44DrawEnv()
